@@ -120,14 +120,9 @@ func (p *Program) bindErrors() []string {
 			errs = append(errs, fmt.Sprintf("%s:%d: contract block %s does not bind to any function", filepath.Base(b.File), b.Line, b.Key))
 			continue
 		}
-		loops, lits := numberLoops(fi.Decl)
-		var n int
-		if _, err := fmt.Sscanf(b.Sub, "loop %d", &n); err == nil && n >= len(loops) {
-			errs = append(errs, fmt.Sprintf("%s:%d: %s has no loop %d", filepath.Base(b.File), b.Line, b.Key, n))
-		}
-		if _, err := fmt.Sscanf(b.Sub, "lit %d", &n); err == nil && n >= len(lits) {
-			errs = append(errs, fmt.Sprintf("%s:%d: %s has no function literal %d", filepath.Base(b.File), b.Line, b.Key, n))
-		}
+		// a loop / literal block whose loop no longer exists is not an error: its invariants are simply not needed
+		// (the function's postconditions still have to be proved); it is listed by `govc list`
+		_ = fi
 	}
 	return errs
 }
@@ -202,6 +197,9 @@ func (u *Unit) paramFacts(env *Env, t Term, ty types.Type) {
 		env.assume(le(u.birth(sBase(t)), IntLit(0)))
 	case SRef:
 		env.assume(le(u.birth(t), IntLit(0)))
+		if mt, ok := types.Unalias(ty).Underlying().(*types.Map); ok {
+			u.mapFacts(env, t, mt)
+		}
 	case SInt:
 		if !u.BV && isIntegerT(ty) && isUnsigned(ty) {
 			env.assume(le(IntLit(0), t))
@@ -469,4 +467,15 @@ func runUnit(prog *Program, fi *FuncInfo, blk *Block, prop, suffix string, extra
 	}
 	e := u.run(ex)
 	return u, e
+}
+
+// a well-formed map value: its length is zero exactly when it has no key
+func (u *Unit) mapFacts(env *Env, m Term, mt *types.Map) {
+	dom, _, ks, _ := u.mapHeaps(env, mt)
+	ln := u.mapLen(env, m)
+	env.assume(le(IntLit(0), ln))
+	k := u.D.Bound("k", ks)
+	sel := Select(Select(dom, m), k)
+	env.assume(Forall([]Term{k}, Imp(sel, lt(IntLit(0), ln)), []Term{sel}))
+	u.assumeUsed("map parameters are well formed: len(m) >= 0 and len(m) == 0 implies no key is present")
 }
